@@ -1566,6 +1566,47 @@ def wfModel (m : ModelP) : Bool :=
         (scopeNames (m.graph.inputs.map (·.name)) (m.graph.initializers.map (·.name))
             (nodeOutNames m.graph.nodes)).all (fun n => (parseExperimentalName n).isNone))
 
+/-! ### IR version < 10 with graph values named like experimental entries (E8, D320)
+
+Below IR version 10 the value-info of a function value `vn` of `domain::name` lives in the main graph's
+`value_info` under the name `domain::name/vn`.  A value of the main graph itself may carry such a name.
+`serialize_model_into` (serde.py:1593-1615, /repo commit f0d2984) then does not write the function's entry:
+the names of the inputs / outputs of the top-level nodes and of the initializers are reserved.  `normModel9` is
+`normModel` with that rule; `wfModel9` is `wfModel` without "no value of the main graph has a name of the
+experimental form". -/
+
+/-- the reserved names on the proto (serde.py:1593-1602) -/
+def reservedP : GraphP → List String
+  | .mk _ _ nodes initializers _ _ _ _ _ =>
+    ((nodes.flatMap fun n => n.inputs ++ n.outputs).filter (· ≠ ""))
+      ++ ((initializers.map (·.name)).filter (· ≠ ""))
+
+/-- `experimentalVIs` with the reserved names: the entry of a function value whose formatted name is the name of
+a value of the main graph is not written -/
+def experimentalVIsR (R : List String) (V : List ValueInfoP) (f : FunctionP) : List ValueInfoP :=
+  if !f.overload.isEmpty then [] else
+  (f.inputs ++ nodeOutNames f.nodes).filterMap fun vn =>
+    if R.contains (experimentalName f.domain f.name vn) then none else expEntry V f vn
+
+def normModel9 (m : ModelP) : ModelP :=
+  let g := normGraph m.graph
+  { m with
+    metadata := normEntries m.metadata,
+    graph := if m.irVersion ≥ 10 then g
+             else GraphP.addValueInfo g
+               (m.functions.flatMap (experimentalVIsR (reservedP m.graph) m.graph.valueInfo)),
+    functions := m.functions.map (normFunction (decide (m.irVersion ≥ 10))) }
+
+/-- `wfModel` without its last conjunct -/
+def wfModel9 (m : ModelP) : Bool :=
+  wfGraph [] m.graph && m.functions.all (wfFunction m.irVersion)
+    && wfEntries m.metadata
+    && nodupStr (m.opsetImport.map (·.domain))
+    && nodupKeys (m.functions.map fun f => (f.domain, f.name, f.overload))
+    && (decide (m.irVersion ≥ 11) ||
+        (m.configuration.isEmpty && !graphHasDevCfg m.graph
+          && m.functions.all (fun f => !nodesHaveDevCfg f.nodes)))
+
 /-! ### stand-alone entry points: `from_proto(NodeProto)`, `from_proto(FunctionProto)` -/
 
 /-- the placeholder values `deserialize_node` creates for the inputs of a stand-alone node: every
